@@ -154,6 +154,17 @@ def run_property(prop):
         n += ng
         if gf:
             fails.append(gf)
+    if prop == "C16":
+        # generated .dig documents (tools/dig_cases.py): the XML walk of dig::File::parse is out of reach of a contract
+        import dig_cases
+        nd, df = dig_cases.run(thorough=os.environ.get("VERIF_TIER") == "thorough", seed=int(os.environ.get("VERIF_SEED", "0") or 0))
+        n += nd
+        os.makedirs(os.path.join(VERIF, "out", "replay"), exist_ok=True)
+        for k, (desc, doc, bad) in enumerate(df[:5]):
+            p = os.path.join(VERIF, "out", "replay", f"C16-doc-{k}.dig")
+            with open(p, "w") as f:
+                f.write(doc)
+            fails.append((p, bad, dict(description=desc, reproduce=f"build/replay-target/release/verif_replay --dig load {p}")))
     return n, fails
 
 
